@@ -56,6 +56,8 @@ pub struct CfgChan {
     pub half_operators: Vec<String>,
     pub voices: Vec<String>,
     pub flags: String, // subset of "imstn"
+    /// the mask lists are written in the configuration even when empty (`exception = []`)
+    pub empty_lists_present: bool,
 }
 
 fn set_opt(v: &[String]) -> Option<std::collections::HashSet<String>> {
@@ -124,10 +126,10 @@ impl Cfg {
                         name: ch.name.clone(),
                         topic: ch.topic.clone(),
                         modes: ChannelModes {
-                            ban: set_opt(&ch.ban),
-                            exception: set_opt(&ch.exception),
+                            ban: if ch.empty_lists_present { Some(ch.ban.iter().cloned().collect()) } else { set_opt(&ch.ban) },
+                            exception: if ch.empty_lists_present { Some(ch.exception.iter().cloned().collect()) } else { set_opt(&ch.exception) },
                             client_limit: ch.limit,
-                            invite_exception: set_opt(&ch.invite_exception),
+                            invite_exception: if ch.empty_lists_present { Some(ch.invite_exception.iter().cloned().collect()) } else { set_opt(&ch.invite_exception) },
                             key: ch.key.clone(),
                             operators: set_opt(&ch.operators),
                             half_operators: set_opt(&ch.half_operators),
